@@ -334,6 +334,37 @@ pub fn run(tier: &str, prop: Prop) -> i32 {
     }
     rep.sub("weights", "a mixed range (run, single, suited, offsuit, two leftovers) under pairs of weights from {1, 0.5, 0.25, 0.3, 0.1, 1/3, 1e-7, 0.99999994, 0, smallest subnormal, 0.7, 0.123456789}", nw, nw, false, json!({"weights": ws.iter().map(|w| format!("{:e}", w)).collect::<Vec<_>>()}));
     rep.bound("weights: -0.0, NaN, infinities and values above 1 are outside 'weights in [0,1]' and are not used");
+    // (iv-b) every weight whose text has up to three (thorough: four) fraction digits, and the 512 floats next to
+    // 1, 0.5, 0.1 and 0 from above/below: all digit pairs and triples the printed weight can contain
+    {
+        let mut ws2: Vec<f32> = vec![];
+        let den = if thorough { 10_000u32 } else { 1000 };
+        for k in 0..=den {
+            ws2.push(k as f32 / den as f32);
+        }
+        for base in [1.0f32, 0.5, 0.1] {
+            for d in 1..=128u32 {
+                ws2.push(f32::from_bits(base.to_bits() - d));
+            }
+        }
+        for d in 1..=128u32 {
+            ws2.push(f32::from_bits(d));
+        }
+        let outs = par_map(ws2.len(), |i| {
+            let w = ws2[i];
+            let mut c = Contents::new();
+            add_rp(&mut c, &RP::Pocket(4), bits(w));
+            add_rp(&mut c, &RP::Suited(0, 3), bits(1.0));
+            add_rp(&mut c, &RP::Suited(0, 4), bits(w));
+            c.insert(Combo::new(40, 45), bits(w));
+            c.insert(Combo::new(41, 51), bits(0.5));
+            check(prop, &c).map(|b| (c, b))
+        });
+        for o in outs.into_iter().flatten() {
+            record(&mut rep, "weight-texts", &o.0, what, o.1);
+        }
+        rep.sub("weight-texts", &format!("a mixed range (pocket, suited run broken by the weight, leftovers) under every weight k/{} and the 128 floats just below 1, 0.5, 0.1 and just above 0", den), ws2.len() as u64, ws2.len() as u64, false, json!({}));
+    }
 
     cell_pairs(&mut rep, prop, what, thorough);
     parsed_ranges(&mut rep, prop);
@@ -630,14 +661,18 @@ fn failing_writer(rep: &mut Report, prop: Prop) {
 /// complete rank pairs whose combos carry weights zero, one or two ulps apart, built into hash tables of
 /// different capacity and insertion order: the text must be the same (and canonical) for all builds
 fn near_equal_capacities(rep: &mut Report) {
-    let base = 0.5f32.to_bits();
-    let jobs: Vec<(RP, u64)> = vec![(RP::Suited(0, 1), 81), (RP::Pocket(5), 729), (RP::Suited(7, 9), 81)];
+    // around 0.5, and at the top of the interval {1 - 2 ulp, 1 - 1 ulp, 1} (a sum or product of such weights rounds to
+    // the same value as for all-ones)
+    let jobs: Vec<(RP, u64, u32)> = vec![(RP::Suited(0, 1), 81, 0.5f32.to_bits()), (RP::Pocket(5), 729, 0.5f32.to_bits()), (RP::Suited(7, 9), 81, 0.5f32.to_bits()), (RP::Suited(0, 1), 81, 1.0f32.to_bits() - 2), (RP::Pocket(5), 729, 1.0f32.to_bits() - 2), (RP::Offsuit(3, 4), 531441, 1.0f32.to_bits() - 2)];
     let mut n = 0u64;
     let mut distinct = std::collections::BTreeSet::new();
-    for (rp, total) in jobs {
+    for (rp, total, base) in jobs {
+        // the 3^12 offsuit assignments: every 97th
+        let stride = if total > 1000 { 97 } else { 1 };
+        let total = total / stride;
         let combos = rp.combos();
         let outs = par_map(total as usize, |code| {
-            let mut x = code as u64;
+            let mut x = code as u64 * stride;
             let items: Vec<(Combo, f32)> = combos.iter().map(|cb| {
                 let w = f32::from_bits(base + (x % 3) as u32);
                 x /= 3;
@@ -689,7 +724,7 @@ fn near_equal_capacities(rep: &mut Report) {
             }
         }
     }
-    rep.sub("near-equal-capacities", "AKs, 99 and 7 5s with every assignment of three weights zero, one and two ulps apart to their combos (3^4, 3^6, 3^4), each built by collect(), collect() in reverse, collect() after sixteen rounds of overwritten duplicates (larger table), parsing, and collect() beside 66 other combos: identical and canonical text", n, distinct.len() as u64, true, json!({}));
+    rep.sub("near-equal-capacities", "AKs, 99 and 7 5s with every assignment of three weights zero, one and two ulps apart (around 0.5; AKs and 99 also with {1-2ulp, 1-ulp, 1}, and every 97th such assignment on JTo) to their combos (3^4, 3^6, 3^4), each built by collect(), collect() in reverse, collect() after sixteen rounds of overwritten duplicates (larger table), parsing, and collect() beside 66 other combos: identical and canonical text", n, distinct.len() as u64, true, json!({}));
 }
 
 const R: [Rank; 13] = RANKS;
